@@ -24,7 +24,7 @@ def CHAR(number):
     number = utils.parse_number(number)
     if isinstance(number, error.XLError):
         return number
-    return chr(number)
+    return chr(int(number) if isinstance(number, float) else number)
 
 
 @dispatcher.register_for('CODE')
@@ -134,8 +134,14 @@ def TEXTJOIN(delimiter, ignore_empty, *args):
     return delimiter.join(gen)
 
 
+def _whole(number):
+    # a computed count or position (LEN(s)/2) is a float; slicing and chr() need an integer
+    return int(number) if isinstance(number, float) else number
+
+
 @dispatcher.register_for('LEFT', 'LEFTB')
 def LEFT(text, num_chars=1):
+    num_chars = _whole(num_chars)
     if num_chars < 0 or not isinstance(text, string_types):
         return error.VALUE
     return text[:num_chars]
@@ -143,6 +149,7 @@ def LEFT(text, num_chars=1):
 
 @dispatcher.register_for('RIGHT', 'RIGHTB')
 def RIGHT(text, num_chars=1):
+    num_chars = _whole(num_chars)
     if num_chars < 0 or not isinstance(text, string_types):
         return error.VALUE
     # text[-0:] would be the whole text
@@ -151,6 +158,7 @@ def RIGHT(text, num_chars=1):
 
 @dispatcher.register_for('MID', 'MIDB')
 def MID(text, start_num, num_chars=1):
+    start_num, num_chars = _whole(start_num), _whole(num_chars)
     if start_num < 1 or num_chars < 0 or not isinstance(text, string_types):
         return error.VALUE
     return text[start_num - 1:][:num_chars]
